@@ -23,8 +23,8 @@ are reported).  Every state and every transition is judged:
                  reference model; assigning the old value back restores the whole state
   C14.unknown    removeProfile(<not registered>) raises NoSuchProfileException and changes nothing
 
-Signatures: `clause|symptom|essential operation kinds` where the essential kinds are computed by
-one-step counterfactuals on the witness history (delete an operation, split addProfiles, replace
+Signatures: `clause|symptom|essential set of operation kinds` where the essential set is computed by
+counterfactuals on the witness history (delete one operation or two, split addProfiles, replace
 addProfiles([X]) by addProfile(X), replace the emptied seed by built-in + removeProfile(all=True),
 replace shared definition dictionaries by copies) until none applies.
 """
@@ -945,11 +945,12 @@ def minimise(case, tier, clause, symptom):
                     case, changed = c, True
                     break
     h = case['history']
-    ess = _kinds(h)
+    # the essential set: kinds of the operations no counterfactual could remove (order and multiplicity are in the witness)
+    ess = '+'.join(sorted({op[0] for op in h[1:]})) or '-'
     if h[0][1] != 'builtin':
-        ess = 'seed-' + h[0][1] + '>' + ess
+        ess = 'seed-' + h[0][1] + '+' + ess
     if case['kind'] == 'addremove':
-        ess += '|probe=' + ('addmany2' if case['probe'][0] == 'addmany' and len(case['probe'][1]) == 2 else case['probe'][0])
+        ess += '|probe=' + case['probe'][0]
     if h[0][2] != 'copy':
         ess += '|definitions=' + h[0][2]
     return case, ess
